@@ -59,6 +59,21 @@ def classify_write(prog, n, fq):
         if op == "=":
             args = n.get("args", [])
             if len(args) == 1 and is_empty_temp(args[0]):
+                # the repo's own operator= must really take over the (empty) source on every path
+                callee = prog.fn(n.get("callee")) if n.get("callee") else None
+                if callee is not None and callee.has_cfg and callee.file.startswith("/repo/"):
+                    def writes_field(e):
+                        if e.get("expr") is None:
+                            return False
+                        for eff, lv, x in tree_effects(e["expr"]):
+                            if eff in ("write", "maybe_write") and lv is not None:
+                                kind, key, _ = lvalue_root(lv)
+                                if kind == "field" and key[1] == "this":
+                                    return True
+                        return False
+                    ok, path = cfg.must_happen_before_exit(callee, writes_field)
+                    if not ok:
+                        return "other", "assigns an empty temporary through %s, which leaves the target unchanged on path B%s" % (short(callee.qual), "->B".join(map(str, path or [])))
                 return "reset", "assigns a value-initialised temporary"
             return "other", "assigns %s" % fmt(args[0] if args else None)
         nm = short(n.get("name") or "")
